@@ -1,7 +1,7 @@
 (* C11 -- Transmit regulation holds for every send pattern.  Statements only.
    RATE, CAPACITY, the frame-size formula, the gap and the token constants are regenerated from the source. *)
 From Coq Require Import ZArith List Bool Sorted.
-From RV Require Import GenConsts M_Regulate P_Regulate M_RegulateK P_RegulateK.
+From RV Require Import GenConsts M_Regulate P_Regulate M_RegulateK P_RegulateK M_SyncAvoid P_SyncAvoid.
 Import ListNotations.
 Open Scope Z_scope.
 
@@ -73,3 +73,23 @@ Proof. split; [repeat constructor; vm_compute; discriminate | vm_compute; reflex
 (* the allowance is the one the property states: 1% of the radio's 38 400 bit/s, a bucket worth 60 s of it *)
 Theorem C11_allowance_as_stated : RATE * 100 <= 38400 /\ 0 < RATE /\ CAPACITY = RATE * 60 * TICKS_PER_S.
 Proof. repeat split; vm_compute; congruence. Qed.
+
+(* "regulation only delays writes", the sync-cycle avoidance (avoid_system_syncs; window constants re-read from the source): an announced sync
+   holds a write only inside its window -- never once its time has come (whatever became of the controller that announced it), never earlier than
+   the window, always inside it ... *)
+Theorem C11_sync_never_held_once_due : forall due now, due - SYNC_WINDOW_LOWER_us <= now -> imminent due now = false.
+Proof. exact never_held_once_due. Qed.
+Theorem C11_sync_never_held_early : forall due now, now <= due - SYNC_WINDOW_UPPER_us -> imminent due now = false.
+Proof. exact never_held_early. Qed.
+Theorem C11_sync_held_inside_the_window : forall due now, due - SYNC_WINDOW_UPPER_us < now < due - SYNC_WINDOW_LOWER_us -> imminent due now = true.
+Proof. exact held_inside_the_window. Qed.
+(* ... so the wait for an announcement ends: at the end of its window at the latest, plus one sleep (12 iterations always suffice) *)
+Theorem C11_sync_hold_bounded : forall fuel due now, (12 <= fuel)%nat ->
+  imminent due (hold fuel [due] now) = false /\ now <= hold fuel [due] now <= Z.max now (due - SYNC_WINDOW_LOWER_us + SYNC_WAIT_SHORT_us).
+Proof. exact hold_one_bounded. Qed.
+(* the window is the one the source's comments describe: opens 108.8 ms and closes 8 ms before the announced time; 10 ms sleeps *)
+Theorem C11_sync_window_as_stated : SYNC_WINDOW_UPPER_us = 108800 /\ SYNC_WINDOW_LOWER_us = 8000 /\ SYNC_WAIT_SHORT_us = 10000 /\ SYNC_WAIT_LONG_us = 84000.
+Proof. repeat split; reflexivity. Qed.
+(* a test without the lower bound holds every write for ever once an announcement's time has come and no further one is heard *)
+Theorem C11_sync_one_sided_refuted : forall due now, due <= now -> imminent_one_sided due now = true.
+Proof. exact one_sided_holds_for_ever. Qed.
